@@ -292,6 +292,8 @@ type vmsg struct {
 	Marker string
 	Flags  []string
 	SHA    string // of the literal without the internal id header
+	Size   int    // RFC822.SIZE (-1: not reported)
+	Octets int    // number of octets of BODY[] (-1: no body)
 }
 
 type mview struct {
@@ -313,6 +315,7 @@ var (
 	reListName = regexp.MustCompile(`^\* (LIST|LSUB) \(([^)]*)\) "(.)" (.*)$`)
 	reFlagsLine = regexp.MustCompile(`^\* FLAGS \(([^)]*)\)`)
 	rePermLine  = regexp.MustCompile(`\[PERMANENTFLAGS \(([^)]*)\)\]`)
+	reSize      = regexp.MustCompile(`RFC822\.SIZE (\d+)`)
 	reUIDV     = regexp.MustCompile(`\[UIDVALIDITY (\d+)\]`)
 	reUIDNext  = regexp.MustCompile(`\[UIDNEXT (\d+)\]`)
 	reMarker   = regexp.MustCompile(`(?m)^X-Marker: (\S+)\r?$`)
@@ -400,7 +403,7 @@ func freshView(c *imapc.Client) (*wview, error) {
 		if m := reUIDNext.FindStringSubmatch(all); m != nil {
 			mv.Next, _ = strconv.Atoi(m[1])
 		}
-		r, err = c.Cmd("UID FETCH 1:* (UID FLAGS BODY.PEEK[])")
+		r, err = c.Cmd("UID FETCH 1:* (UID FLAGS RFC822.SIZE BODY.PEEK[])")
 		if err != nil {
 			return nil, fmt.Errorf("UID FETCH 1:*: %w", err)
 		}
@@ -408,7 +411,7 @@ func freshView(c *imapc.Client) (*wview, error) {
 		if r.Status != "OK" {
 			// a listed message cannot be served: that is an observation, not a harness problem. List the messages
 			// without their bodies and fetch the bodies one by one; the unservable ones are marked.
-			r2, err := okCmd(c, "UID FETCH 1:* (UID FLAGS)")
+			r2, err := okCmd(c, "UID FETCH 1:* (UID FLAGS RFC822.SIZE)")
 			if err != nil {
 				return nil, err
 			}
@@ -436,9 +439,13 @@ func freshView(c *imapc.Client) (*wview, error) {
 			if e.Kind != "FETCH" {
 				continue
 			}
-			m := vmsg{UID: e.UID, Flags: normFlags(e.Flags)}
+			m := vmsg{UID: e.UID, Flags: normFlags(e.Flags), Size: -1, Octets: -1}
+			if x := reSize.FindStringSubmatch(e.Raw); x != nil {
+				m.Size, _ = strconv.Atoi(x[1])
+			}
 			if len(e.Lits) > 0 {
 				lit := e.Lits[len(e.Lits)-1]
+				m.Octets = len(lit)
 				if x := reMarker.FindSubmatch(lit); x != nil {
 					m.Marker = string(x[1])
 				}
